@@ -10,7 +10,8 @@ RULE = ("import graphs (2..5 environments quick, ..8 thorough; diamonds, repeate
         "hold literals, references to their own keys and to keys inherited from their own imports, secrets and provider "
         "outputs, while importers and siblings define the same keys differently; the root reads every imported X through "
         "${imports.X} after all merges; X is also evaluated on its own.  non-trivial = at least one ${imports.X} compared")
-ASSUMPTIONS = ["environments do not read context.rootEnvironment (their value legitimately depends on the root)",
+ASSUMPTIONS = ["environments do not read context.rootEnvironment (their value legitimately depends on the root); they may read "
+               "context.currentEnvironment (their own name)",
                "mutable aliasing of *value (the reason for the defensive copies) is runtime behaviour: visible to the "
                "correspondence and to the oracle, not to the theorems (the model's values are immutable)"]
 TRUSTED = []
@@ -33,6 +34,9 @@ def gen_env(rng, name, lower, sites, provs):
             e = G.gen_literal(rng, 2, ["a", "b"], G.RSTRS)
         elif j == 4 and have:
             e = ("sym", [("name", rng.choice(have))])
+        elif j == 5 and rng.chance(1, 3):
+            # an environment's OWN name is the same wherever it is imported (only the root's name legitimately differs)
+            e = ("sym", [("name", "context"), ("name", "currentEnvironment"), ("name", "name")])
         elif j == 5:
             e = ("sym", [("name", rng.choice(KEYS))])          # own key, inherited key, or dangling
         elif j == 6:
